@@ -31,20 +31,21 @@ type verifC03Shape struct {
 	cache    int // -1 off, else capacity
 	notAllow bool
 	onPanic  bool // OnPanic hook installed and a panicking route registered
+	fallback int  // custom NotFound / NotAllowed chains of this many handlers (0: the built-in ones)
 }
 
 var verifC03Shapes = []verifC03Shape{
-	{nil, 0, -1, false, false},
-	{[]int{1}, 0, -1, false, false},
-	{[]int{3}, 1, -1, false, false},
-	{[]int{1, 1, 1}, 0, -1, false, false}, // len 3, cap 4: spare capacity in the shared array
-	{[]int{1, 2}, 2, -1, true, false},
-	{[]int{2}, 3, 2, false, false},
-	{nil, 3, 1, true, false},
-	{[]int{1, 1, 1}, 3, 2, true, false},
-	{[]int{1}, 1, 1, false, false},
-	{nil, -3, -1, false, false},
-	{[]int{1, 1, 1}, -3, 1, true, false},
+	{nil, 0, -1, false, false, 0},
+	{[]int{1}, 0, -1, false, false, 0},
+	{[]int{3}, 1, -1, false, false, 0},
+	{[]int{1, 1, 1}, 0, -1, false, false, 0}, // len 3, cap 4: spare capacity in the shared array
+	{[]int{1, 2}, 2, -1, true, false, 0},
+	{[]int{2}, 3, 2, false, false, 0},
+	{nil, 3, 1, true, false, 0},
+	{[]int{1, 1, 1}, 3, 2, true, false, 0},
+	{[]int{1}, 1, 1, false, false, 0},
+	{nil, -3, -1, false, false, 0},
+	{[]int{1, 1, 1}, -3, 1, true, false, 0},
 }
 
 func init() {
@@ -54,6 +55,10 @@ func init() {
 		sh.onPanic = true
 		verifC03Shapes = append(verifC03Shapes, sh)
 	}
+	// custom fallback chains (the router's own slices are what a 404/405 request runs)
+	verifC03Shapes = append(verifC03Shapes,
+		verifC03Shape{nil, 0, -1, true, false, 1},
+		verifC03Shape{[]int{1}, 1, 1, true, false, 2})
 }
 
 type verifC03Req struct{ method, path string }
@@ -71,6 +76,9 @@ var verifC03Pairs = [][2]verifC03Req{
 	{{"GET", "/d/3"}, {"GET", "/x/3"}},
 	{{"GET", "/boom"}, {"GET", "/s1"}},
 	{{"GET", "/boom"}, {"GET", "/boom"}},
+	{{"GET", "/q/1"}, {"GET", "/s2"}},  // not found (no route has this shape) beside a matched route
+	{{"GET", "/q/1"}, {"GET", "/q/2"}}, // two not-found requests
+	{{"POST", "/s2"}, {"GET", "/s2"}},  // method not allowed (where enabled) beside a matched route
 }
 
 func verifC03Router(sh verifC03Shape) *Router {
@@ -106,6 +114,14 @@ func verifC03Router(sh verifC03Shape) *Router {
 	r.GET("/{v}", body("v"))
 	r.Add("/m", body("m"), "TRACE", "PUT", "DELETE", "GET")
 	r.GET("/x/{id}", body("x"))
+	if sh.fallback > 0 {
+		var nf, na []HandlerFunc
+		for i := 0; i < sh.fallback-1; i++ {
+			nf, na = append(nf, pass), append(na, pass)
+		}
+		r.NotFound(append(nf, func(c *Context) { c.SetStatus(404); c.WriteString("custom-404") })...)
+		r.NotAllowed(append(na, func(c *Context) { c.SetStatus(405); c.WriteString("custom-405") })...)
+	}
 	if sh.onPanic {
 		r.OnPanic = func(c *Context) {
 			c.SetStatus(500)
@@ -124,7 +140,7 @@ func verifC03Serve(r *Router, q verifC03Req) (int, string) {
 
 func verifHarness_C03_pairs() {
 	cfg := verifCfg()
-	nShapes := 14 // len(verifC03Shapes) after init
+	nShapes := 16 // len(verifC03Shapes) after init
 	sh := verifC03Shapes[cfg%nShapes]
 	pair := verifC03Pairs[(cfg/nShapes)%len(verifC03Pairs)]
 	warm := (cfg / (nShapes * len(verifC03Pairs))) % 4 // 0 none, 1 both, 2 only the first, 3 only the second
